@@ -16,6 +16,8 @@ use std::io::{BufRead, Write};
 #[global_allocator]
 static GLOBAL: c02op::Counting = c02op::Counting;
 
+const SMALL_STACK: usize = 192 * 1024;
+
 fn main() {
     std::panic::set_hook(Box::new(|_| {}));
     if std::env::args().nth(1).as_deref() == Some("tlist") { typed::tlist(); return }
@@ -27,7 +29,20 @@ fn main() {
         let line = line.trim();
         if line.is_empty() || line.starts_with('#') { continue }
         let w: Vec<&str> = line.split(' ').filter(|x| !x.starts_with('#')).collect();
-        let r = util::guard(|| dispatch(&w)).unwrap_or_else(|| "panic".to_string());
+        // long operations (deep nests, long strings) run on a thread with a SMALL stack: the library's decoding,
+        // skipping, tokenising and display loops keep their pending work on the heap, so their stack use must not
+        // grow with the input; an implementation that recurses per nesting level dies here (the orchestrator
+        // attributes the death to this line) instead of surviving on the 8 MiB main-thread stack
+        let r = if line.len() > 600 {
+            let owned: Vec<String> = w.iter().map(|x| x.to_string()).collect();
+            let h = std::thread::Builder::new().stack_size(SMALL_STACK).spawn(move || {
+                let w: Vec<&str> = owned.iter().map(|x| x.as_str()).collect();
+                util::guard(|| dispatch(&w)).unwrap_or_else(|| "panic".to_string())
+            }).expect("spawn");
+            h.join().unwrap_or_else(|_| "panic".to_string())
+        } else {
+            util::guard(|| dispatch(&w)).unwrap_or_else(|| "panic".to_string())
+        };
         writeln!(out, "{}", r).unwrap();
     }
 }
